@@ -1,5 +1,4 @@
-(* Css/Shape.v — C07, the converse direction: a token the lexer returns has the shape its type prescribes (for the token
-   types listed in shaped). *)
+(* Css/Shape.v — C07, the converse direction: a token the lexer returns has the shape its type prescribes. *)
 From Verif Require Import Common.Base Common.Tactics Common.Lx Css.Model Css.Basics Css.Bounds Css.Proofs Css.Agree Css.Relex Css.Classes.
 From Coq Require Import ZifyBool.
 
@@ -13,16 +12,7 @@ Proof.
   split; [apply (css_scan_cut _ rest); assumption|]. split; assumption.
 Qed.
 
-(* the token types whose shape is characterised here; the others (urls) are not *)
-Definition shaped (ty : ttype) : bool :=
-  match ty with
-  | TWhitespace | TComment | TDelim | TNumber | TPercentage | TUnicodeRange | TString | TBadString
-  | TIdent | TCustomPropertyName | TFunction | TAtKeyword | THash | TDimension
-  | TColon | TSemicolon | TComma | TLeftParenthesis | TRightParenthesis | TLeftBracket | TRightBracket | TLeftBrace | TRightBrace
-  | TIncludeMatch | TDashMatch | TPrefixMatch | TSuffixMatch | TSubstringMatch | TColumn | TCDO | TCDC => true
-  | _ => false
-  end.
-
+(* --- the shapes of the token types, as predicates on the token's bytes alone ------------------------------------ *)
 Definition str_shape (b : list Z) : Prop :=
   exists q body, is_quote q /\
     ((b = q :: body ++ [q] /\ sbody q body [q]) \/
@@ -37,6 +27,26 @@ Definition hash_shape (b : list Z) : Prop := exists body, b = 35 :: body /\ body
 Definition func_shape (b : list Z) : Prop := exists name, b = name ++ [40] /\ ident_text name [40] /\ is_url_name name = false.
 Definition dim_shape (b : list Z) : Prop :=
   exists num unit, b = num ++ unit /\ num_text num /\ (ident_text unit [] \/ custom_text unit []).
+
+Definition closer0 (cl : list Z) : Prop := cl = [41] \/ cl = [].
+
+Definition arg_shape (ty : ttype) (a : list Z) : Prop :=
+  match ty with
+  | TURL =>
+      (exists body ws2 cl, a = body ++ ws2 ++ cl /\ ubody body (ws2 ++ cl) /\ all_b is_ws ws2 /\ (body = [] -> ws2 = []) /\ closer0 cl) \/
+      (exists s ws2 cl, a = s ++ ws2 ++ cl /\ qarg s (ws2 ++ cl) false /\ all_b is_ws ws2 /\ closer0 cl)
+  | TBadURL =>
+      (exists body bc rem cl, a = body ++ bc :: rem ++ cl /\ ubody body (bc :: rem ++ cl) /\ url_stop bc (rem ++ cl) /\
+         (body = [] -> not_quote bc) /\ rbody (bc :: rem) cl /\ closer0 cl) \/
+      (exists body ws2 rem cl, a = body ++ ws2 ++ rem ++ cl /\ ubody body (ws2 ++ rem ++ cl) /\ body <> [] /\ all_b is_ws ws2 /\
+         ws2 <> [] /\ rem <> [] /\ is_ws (hd0 rem) = false /\ hd0 rem <> 41 /\ rbody rem cl /\ closer0 cl) \/
+      (exists s ws2 rem cl, a = s ++ ws2 ++ rem ++ cl /\ qarg s (ws2 ++ rem ++ cl) false /\ all_b is_ws ws2 /\
+         rem <> [] /\ is_ws (hd0 rem) = false /\ hd0 rem <> 41 /\ rbody rem cl /\ closer0 cl) \/
+      (exists s rem cl, a = s ++ rem ++ cl /\ qarg s (rem ++ cl) true /\ rbody rem cl /\ closer0 cl)
+  | _ => False
+  end.
+Definition url_like (ty : ttype) (b : list Z) : Prop :=
+  exists name ws1 a, b = name ++ 40 :: ws1 ++ a /\ url_name name /\ all_b is_ws ws1 /\ arg_shape ty a.
 
 Definition ur_shape (t : list Z) : Prop :=
   (exists u h q, t = u :: 43 :: h ++ q /\ (u = 117 \/ u = 85) /\ all_b is_hex h /\ all_b is_qmark q /\ 1 <= len h + len q <= 6) \/
@@ -60,7 +70,10 @@ Definition tok_shape (ty : ttype) (b : list Z) : Prop :=
   | TAtKeyword => at_shape b
   | THash => hash_shape b
   | TDimension => dim_shape b
-  | _ => if shaped ty then In (ty, b) fixed_tokens else True
+  | TURL => url_like TURL b
+  | TBadURL => url_like TBadURL b
+  | TError | TEmpty | TCustomPropertyValue => False
+  | _ => In (ty, b) fixed_tokens
   end.
 
 (* a comment body: up to the first "*/", or to the end of the input *)
@@ -90,26 +103,6 @@ Proof.
     + apply Hrec; [exact H|]. intros Hc. lia.
 Qed.
 
-(* the results of Next that are not one of the shaped types, or are a one-byte delimiter *)
-Definition free_or_delim (ty : ttype) (n : Z) : Prop := shaped ty = false \/ (ty = TDelim /\ n = 1).
-
-Lemma or_delim_free r : (is_err (fst r) = true \/ shaped (fst r) = false) -> free_or_delim (fst (or_delim r)) (snd (or_delim r)).
-Proof.
-  unfold or_delim. destruct (is_err (fst r)) eqn:E; intros [H|H]; cbn [fst snd]; try congruence.
-  - right. split; reflexivity.
-  - right. split; reflexivity.
-  - left. exact H.
-Qed.
-
-Lemma pos_tok_free t n : shaped t = false -> free_or_delim (fst (pos_tok t n)) (snd (pos_tok t n)).
-Proof. intros H. unfold pos_tok. destruct (0 <? n); cbn [fst snd]; [left; exact H|right; split; reflexivity]. Qed.
-
-Lemma free_shape ty b : free_or_delim ty (len b) -> b <> [] -> shaped ty = true -> tok_shape ty b.
-Proof.
-  intros [H|(-> & H)] Hne Hs; [congruence|]. cbn [tok_shape].
-  destruct b as [|c [|c1 b]]; [congruence|eauto|]. rewrite !len_cons in H. pose proof (len_nonneg b). lia.
-Qed.
-
 Lemma one_byte (c : Z) (b' : list Z) : len (c :: b') = 1 -> b' = [].
 Proof. rewrite len_cons. destruct b' as [|x t]; [reflexivity|]. rewrite len_cons. pose proof (len_nonneg t). lia. Qed.
 
@@ -121,16 +114,12 @@ Proof. destruct b as [|x t]; [reflexivity|]. rewrite len_cons. pose proof (len_n
 Lemma hd0_is (b : list Z) k : hd0 b = k -> k <> 0 -> exists t, b = k :: t.
 Proof. destruct b as [|y t]; cbn [hd0]; intros H Hk; [congruence|]. exists t. congruence. Qed.
 
-Lemma free_res (r : ttype * Z) ty n : Some r = Some (ty, n) -> free_or_delim (fst r) (snd r) -> free_or_delim ty n.
-Proof. intros H. inversion H. subst r. cbn [fst snd]. auto. Qed.
-
 Lemma delim_shape (c : Z) b' : 1 = len (c :: b') -> tok_shape TDelim (c :: b').
 Proof. intros H. cbn [tok_shape]. rewrite (one_byte c b' (eq_sym H)). eauto. Qed.
 
 (* result (t, n) is the scan of the whole of b *)
 Ltac res H Hn := apply Some_pair_inj in H; destruct H as [<- Hn].
 Ltac nil_of b Hn := assert (b = []) by (apply len0_nil; rewrite ?len_cons in Hn; pose proof (len_nonneg b); lia); subst b.
-Ltac free_case H := apply free_shape; [apply (free_res _ _ _ H)|assumption|assumption].
 
 (* --- numbers ------------------------------------------------------------------------------------------------- *)
 Lemma scan_while_split P : forall l n, scan_while P l = Some n ->
@@ -632,11 +621,235 @@ Proof.
   destruct (whole _ _ _ Hr) as [-> ->]; [lia|]. exists t, r'. auto.
 Qed.
 
+(* --- url( ) and bad-url ---------------------------------------------------------------------------------------- *)
+Lemma scan_while_sent P : P 0 = false -> forall d n, scan_while P (d ++ [0]) = Some n ->
+  exists a r, d = a ++ r /\ len a = n /\ all_b P a /\ P (hd0 r) = false.
+Proof.
+  intros P0. induction d as [|c t IH]; intros n H; cbn [app] in H; rewrite scan_while_cons in H.
+  - rewrite P0 in H. apply Some_inj in H. subst n. exists [], []. repeat split; [constructor|exact P0].
+  - destruct (P c) eqn:Pc.
+    + destruct (scan_while P (t ++ [0])) as [m|] eqn:Em; [|discriminate]. apply Some_inj in H. subst n.
+      destruct (IH m eq_refl) as (a & r & -> & Hl & Ha & Hr). exists (c :: a), r.
+      split; [reflexivity|]. split; [rewrite len_cons; lia|]. split; [constructor; assumption|assumption].
+    + apply Some_inj in H. subst n. exists [], (c :: t). repeat split; [constructor|exact Pc].
+Qed.
+
+(* the end of an unquoted url body *)
+Definition uend (ok : bool) (rest : list Z) : Prop :=
+  if ok then rest = [] \/ exists r, rest = 41 :: r
+  else exists bc y, rest = bc :: y /\ url_bad_char bc = true /\ (bc = 92 -> y = [] \/ is_nl (hd0 y) = true).
+
+Lemma url_loop_inv : forall m d ok n, (length d <= m)%nat -> url_loop (d ++ [0]) 0 = Some (ok, n) ->
+  exists body rest, d = body ++ rest /\ len body = n /\ ubody body rest /\ uend ok rest.
+Proof.
+  induction m as [|m IH]; intros d ok n Hlen H.
+  - destruct d as [|c t]; [|cbn [length] in Hlen; lia]. cbn in H. apply Some_pair_inj in H. destruct H as [<- <-].
+    exists [], []. split; [reflexivity|]. split; [reflexivity|]. split; [constructor|left; reflexivity].
+  - destruct d as [|c t].
+    { cbn in H. apply Some_pair_inj in H. destruct H as [<- <-].
+      exists [], []. split; [reflexivity|]. split; [reflexivity|]. split; [constructor|left; reflexivity]. }
+    cbn [length] in Hlen. cbn [app] in H. rewrite url_loop_0, eofb_cons_sent, andb_false_r in H. cbn [orb] in H.
+    destruct (c =? 41) eqn:E41.
+    { apply Some_pair_inj in H. destruct H as [<- <-]. exists [], (c :: t). split; [reflexivity|]. split; [reflexivity|].
+      split; [constructor|]. right. exists t. f_equal. lia. }
+    assert (Hstop : (c = 92 -> t = [] \/ is_nl (hd0 t) = true) -> url_bad_char c = true -> Some (false, 0) = Some (ok, n) ->
+              exists body rest, c :: t = body ++ rest /\ len body = n /\ ubody body rest /\ uend ok rest).
+    { intros H92 Hbad H0. apply Some_pair_inj in H0. destruct H0 as [<- <-]. exists [], (c :: t). split; [reflexivity|]. split; [reflexivity|].
+      split; [constructor|]. exists c, t. auto. }
+    destruct (url_bad_char c) eqn:Ebad.
+    + destruct (c =? 92) eqn:E92; [|apply Hstop; [lia|reflexivity|exact H]].
+      assert (c = 92) by lia. subst c. bind_inv H. destruct (0 <? x) eqn:Ex.
+      * change (92 :: t ++ [0]) with ((92 :: t) ++ [0]) in E.
+        destruct (escape_inv _ _ E) as (eb & r0 & nb & Hd & Hle & Heb & Hnb); [lia|].
+        destruct (esc_text_bs _ _ Heb) as (e' & -> & He'). cbn [app] in Hd. injection Hd as ->.
+        rewrite len_cons in Hle. replace (Z.to_nat (x - 1)) with (length e') in H by (unfold len in Hle; lia).
+        rewrite <- app_assoc, url_loop_skipn in H.
+        destruct (url_loop (r0 ++ [0]) 0) as [[ok' n']|] eqn:El; [|discriminate H]. cbn [shift2 bump2] in H.
+        apply Some_pair_inj in H. destruct H as [<- <-].
+        assert (Hlt : (length r0 <= m)%nat) by (rewrite app_length in Hlen; lia).
+        destruct (IH _ _ _ Hlt El) as (body & rest & -> & Hl & Hb & Hend).
+        exists ((92 :: e') ++ body), rest. split; [cbn [app]; rewrite <- app_assoc; reflexivity|].
+        split; [rewrite len_app, len_cons; lia|]. split; [apply (UB_esc _ nb); assumption|exact Hend].
+      * apply Hstop; [|reflexivity|exact H]. intros _. apply (escape_zero_inv _ _ E). lia.
+    + destruct (url_loop (t ++ [0]) 0) as [[ok' n']|] eqn:El; [|discriminate H]. cbn [bump2] in H.
+      apply Some_pair_inj in H. destruct H as [<- <-].
+      assert (Hlt : (length t <= m)%nat) by lia.
+      destruct (IH _ _ _ Hlt El) as (body & rest & -> & Hl & Hb & Hend).
+      exists (c :: body), rest. split; [reflexivity|]. split; [rewrite len_cons; lia|]. split; [|exact Hend].
+      apply UB_char; [|exact Hb]. unfold url_byte. rewrite Ebad, E41. reflexivity.
+Qed.
+
+Lemma badurl_loop_inv : forall m d n, (length d <= m)%nat -> badurl_loop (d ++ [0]) 0 = Some n ->
+  exists rem rest, d = rem ++ rest /\ rbody rem rest /\ ((rest = [] /\ n = len rem) \/ (exists r, rest = 41 :: r /\ n = len rem + 1)).
+Proof.
+  induction m as [|m IH]; intros d n Hlen H.
+  - destruct d as [|c t]; [|cbn [length] in Hlen; lia]. cbn in H. apply Some_inj in H. subst n.
+    exists [], []. split; [reflexivity|]. split; [constructor|left; auto].
+  - destruct d as [|c t].
+    { cbn in H. apply Some_inj in H. subst n. exists [], []. split; [reflexivity|]. split; [constructor|left; auto]. }
+    cbn [length] in Hlen. cbn [app] in H. rewrite badurl_loop_0, eofb_cons_sent in H.
+    destruct (c =? 41) eqn:E41.
+    { apply Some_inj in H. subst n. exists [], (c :: t). split; [reflexivity|]. split; [constructor|]. right. exists t. split; [f_equal; lia|reflexivity]. }
+    bind_inv H. destruct (0 <? x) eqn:Ex.
+    + change (c :: t ++ [0]) with ((c :: t) ++ [0]) in E.
+      destruct (escape_inv _ _ E) as (eb & r0 & nb & Hd & Hle & Heb & Hnb); [lia|].
+      destruct (esc_text_bs _ _ Heb) as (e' & -> & He'). cbn [app] in Hd. injection Hd as -> ->.
+      rewrite len_cons in Hle. replace (Z.to_nat (x - 1)) with (length e') in H by (unfold len in Hle; lia).
+      rewrite <- app_assoc, badurl_loop_skipn in H.
+      destruct (badurl_loop (r0 ++ [0]) 0) as [n'|] eqn:El; [|discriminate H]. cbn [shift bump] in H. apply Some_inj in H. subst n.
+      assert (Hlt : (length r0 <= m)%nat) by (rewrite app_length in Hlen; lia).
+      destruct (IH _ _ Hlt El) as (rem & rest & -> & Hb & Hend).
+      exists ((92 :: e') ++ rem), rest. split; [cbn [app]; rewrite <- app_assoc; reflexivity|]. split; [apply (RB_esc _ nb); assumption|].
+      rewrite len_app, len_cons. destruct Hend as [(-> & ->)|(r & -> & ->)]; [left; split; [reflexivity|lia]|right; exists r; split; [reflexivity|lia]].
+    + destruct (badurl_loop (t ++ [0]) 0) as [n'|] eqn:El; [|discriminate H]. cbn [bump] in H. apply Some_inj in H. subst n.
+      assert (Hlt : (length t <= m)%nat) by lia.
+      destruct (IH _ _ Hlt El) as (rem & rest & -> & Hb & Hend).
+      exists (c :: rem), rest. split; [reflexivity|]. split.
+      * destruct (c =? 92) eqn:E92.
+        -- assert (c = 92) by lia. subst c. apply RB_bs; [|exact Hb]. change (92 :: (rem ++ rest) ++ [0]) with (92 :: (rem ++ rest) ++ [0]) in E.
+           destruct (escape_zero_inv _ _ E) as [H0|H0]; [lia|left; exact H0|right; exact H0].
+        -- apply RB_char; [lia|lia|exact Hb].
+      * rewrite len_cons. destruct Hend as [(-> & ->)|(r & -> & ->)]; [left; split; [reflexivity|lia]|right; exists r; split; [reflexivity|lia]].
+Qed.
+
+Lemma badurl_whole d : badurl_loop (d ++ [0]) 0 = Some (len d) -> exists rem cl, d = rem ++ cl /\ rbody rem cl /\ closer0 cl.
+Proof.
+  intros H. destruct (badurl_loop_inv _ d _ (le_n _) H) as (rem & rest & -> & Hb & [(-> & Hn)|(r & -> & Hn)]).
+  - exists rem, []. split; [reflexivity|]. split; [exact Hb|right; reflexivity].
+  - rewrite len_app, len_cons in Hn. nil_of r Hn. exists rem, [41]. split; [reflexivity|]. split; [exact Hb|left; reflexivity].
+Qed.
+
+Definition end_shape (ty : ttype) (d : list Z) : Prop :=
+  exists ws2, all_b is_ws ws2 /\
+    ((ty = TURL /\ exists cl, d = ws2 ++ cl /\ closer0 cl) \/
+     (ty = TBadURL /\ exists rem cl, d = ws2 ++ rem ++ cl /\ rem <> [] /\ is_ws (hd0 rem) = false /\ hd0 rem <> 41 /\ rbody rem cl /\ closer0 cl)).
+
+Lemma url_end_whole n d ty : url_end n (d ++ [0]) = Some (ty, n + len d) -> end_shape ty d.
+Proof.
+  unfold url_end. intros H. bind_inv H. destruct (scan_while_sent is_ws eq_refl _ _ E) as (ws2 & r & -> & Hl & Hws & Hr).
+  assert (Hsk : skipz x ((ws2 ++ r) ++ [0]) = r ++ [0]) by (rewrite <- app_assoc, <- Hl; apply skipz_len_app). rewrite Hsk in H.
+  unfold consume_byte in H. rewrite peekz_sent_0 in H. cbn [option_bind] in H. rewrite len_app in H. exists ws2. split; [exact Hws|].
+  destruct (hd0 r =? 41) eqn:E41.
+  - change (0 <? 1) with true in H. cbn [orb] in H. apply Some_pair_inj in H. destruct H as [<- Hn].
+    destruct (hd0_is r 41) as (r' & ->); [lia|lia|]. nil_of r' Hn. left. split; [reflexivity|]. exists [41]. split; [reflexivity|left; reflexivity].
+  - change (0 <? 0) with false in H. cbn [orb] in H. destruct (eofb (r ++ [0])) eqn:Ee.
+    + apply Some_pair_inj in H. destruct H as [<- Hn]. assert (r = []) by (apply len0_nil; lia). subst r.
+      left. split; [reflexivity|]. exists []. split; [reflexivity|right; reflexivity].
+    + bind_inv H. apply Some_pair_inj in H. destruct H as [<- Hn]. assert (x0 = len r) by lia. subst x0.
+      destruct (badurl_whole _ E0) as (rem & cl & -> & Hb & Hcl). right. split; [reflexivity|].
+      assert (Hne : rem <> []).
+      { intros ->. cbn [app] in *. destruct Hcl as [-> | ->]; [cbn in E41; discriminate|cbn in Ee; discriminate]. }
+      exists rem, cl. split; [reflexivity|]. destruct rem as [|c0 rem']; [congruence|]. cbn [app hd0] in *.
+      split; [discriminate|]. split; [exact Hr|]. split; [lia|]. split; [exact Hb|exact Hcl].
+Qed.
+
+Lemma string_arg_inv q d1 ty n : is_quote q -> consume_string ((q :: d1) ++ [0]) = Some (ty, n) ->
+  exists s y bad, q :: d1 = s ++ y /\ qarg s y bad /\ n = len s /\ ty = (if bad then TBadString else TString).
+Proof.
+  intros Hq H. unfold consume_string in H. cbn [app] in H. rewrite peekz_0 in H. cbn [option_bind tl] in H.
+  destruct (string_loop q (d1 ++ [0]) 0) as [[ty' n']|] eqn:El; [|discriminate H]. cbn [bump2] in H.
+  apply Some_pair_inj in H. destruct H as [<- <-].
+  destruct (string_loop_inv q _ d1 _ _ (le_n _) El) as (body & rest & extra & -> & Hb & Hn' & He).
+  destruct He as [(-> & -> & ->)|[(-> & -> & nl & r & -> & Hnl)|[(-> & -> & r & ->)|(-> & -> & ->)]]].
+  - exists (q :: body ++ []), [], false. split; [rewrite !app_nil_r; reflexivity|]. split; [apply QA_eof; auto|].
+    split; [rewrite app_nil_r, len_cons; lia|reflexivity].
+  - exists (q :: body ++ [nl]), r, true. split; [cbn [app]; rewrite <- app_assoc; reflexivity|]. split; [apply QA_bad; assumption|].
+    split; [rewrite len_cons, len_app; change (len [nl]) with 1; lia|reflexivity].
+  - exists (q :: body ++ [q]), r, false. split; [cbn [app]; rewrite <- app_assoc; reflexivity|]. split; [apply QA_str; assumption|].
+    split; [rewrite len_cons, len_app; change (len [q]) with 1; lia|reflexivity].
+  - exists (q :: body ++ [92]), [], false. split; [rewrite app_nil_r; reflexivity|]. split; [apply QA_eof; auto|].
+    split; [rewrite len_cons, len_app; change (len [92]) with 1; lia|reflexivity].
+Qed.
+
+Lemma ws_nil_of_head (ws2 x : list Z) : all_b is_ws ws2 -> is_ws (hd0 (ws2 ++ x)) = false -> ws2 = [].
+Proof. intros H Hh. destruct ws2 as [|w t]; [reflexivity|]. inversion H; subst. cbn [app hd0] in Hh. congruence. Qed.
+
+Lemma skipz_len1_app (a : list Z) c x : skipz (len a + 1) (a ++ c :: x) = x.
+Proof.
+  change (a ++ c :: x) with (a ++ [c] ++ x). rewrite app_assoc.
+  replace (len a + 1) with (len (a ++ [c])) by (rewrite len_app; reflexivity). apply skipz_len_app.
+Qed.
+
+Lemma url_arg_whole n a ty : url_arg n (a ++ [0]) = Some (ty, n + len a) -> is_ws (hd0 a) = false -> arg_shape ty a.
+Proof.
+  unfold url_arg. rewrite peekz_sent_0. cbn [option_bind]. intros H Hws.
+  destruct ((hd0 a =? 34) || (hd0 a =? 39)) eqn:Eq.
+  - assert (Hq : is_quote (hd0 a)) by (unfold is_quote; lia).
+    destruct a as [|q d1]; [cbn in Eq; discriminate|]. cbn [hd0] in *. bind_inv H. destruct x as [sty sn].
+    destruct (string_arg_inv _ _ _ _ Hq E) as (s & y & bad & Ha & Hs & -> & ->). cbn [fst snd] in H. rewrite Ha in *.
+    assert (Hsk : skipz (len s) ((s ++ y) ++ [0]) = y ++ [0]) by (rewrite <- app_assoc; apply skipz_len_app). rewrite Hsk in H.
+    rewrite len_app in H. destruct bad; cbn [tt_eqb tt_code Z.eqb Pos.eqb] in H.
+    + bind_inv H. apply Some_pair_inj in H. destruct H as [<- Hn]. assert (x = len y) by lia. subst x.
+      destruct (badurl_whole _ E0) as (rem & cl & -> & Hb & Hcl). cbn [arg_shape]. right. right. right.
+      exists s, rem, cl. auto.
+    + replace (n + (len s + len y)) with ((n + len s) + len y) in H by lia. apply url_end_whole in H.
+      destruct H as (ws2 & Hw2 & [(-> & cl & -> & Hcl)|(-> & rem & cl & -> & Hne & Hrw & H41 & Hb & Hcl)]); cbn [arg_shape].
+      * right. exists s, ws2, cl. auto.
+      * right. right. left. exists s, ws2, rem, cl. repeat split; assumption.
+  - bind_inv H. destruct x as [ok un]. destruct (url_loop_inv _ a _ _ (le_n _) E) as (body & rest & -> & <- & Hub & Hend).
+    cbn [fst snd] in H. rewrite len_app in H.
+    assert (Hsk : skipz (len body) ((body ++ rest) ++ [0]) = rest ++ [0]) by (rewrite <- app_assoc; apply skipz_len_app).
+    destruct ok; cbn [uend] in Hend.
+    + rewrite Hsk in H. replace (n + (len body + len rest)) with ((n + len body) + len rest) in H by lia. apply url_end_whole in H.
+      destruct H as (ws2 & Hw2 & [(-> & cl & -> & Hcl)|(-> & rem & cl & -> & Hne & Hrw & H41 & Hb & Hcl)]).
+      * assert (ws2 = []).
+        { apply (ws_nil_of_head ws2 cl Hw2). destruct Hend as [H0|(r & H0)]; rewrite H0; reflexivity. }
+        subst ws2. cbn [arg_shape]. left. exists body, [], cl. repeat split; auto; constructor.
+      * exfalso. assert (ws2 = []).
+        { apply (ws_nil_of_head ws2 (rem ++ cl) Hw2). destruct Hend as [H0|(r & H0)]; rewrite H0; reflexivity. }
+        subst ws2. cbn [app] in Hend. destruct rem as [|c0 rem']; [congruence|]. cbn [app hd0] in *.
+        destruct Hend as [H0|(r & H0)]; [discriminate H0|]. injection H0 as -> _. lia.
+    + destruct Hend as (bc & y & -> & Hbad & H92). rewrite Hsk in H. unfold consume_whitespace in H. cbn [app] in H. rewrite peekz_0 in H.
+      cbn [option_bind] in H. rewrite len_cons in H.
+      destruct (is_ws bc) eqn:Ebw.
+      * change (0 <? 1) with true in H. cbv iota in H. rewrite <- app_assoc in H. cbn [app] in H. rewrite skipz_len1_app in H.
+        replace (n + (len body + (1 + len y))) with ((n + len body + 1) + len y) in H by lia. apply url_end_whole in H.
+        assert (Hbne : body <> []) by (intros ->; cbn [app hd0] in Hws; congruence).
+        destruct H as (ws2 & Hw2 & [(-> & cl & -> & Hcl)|(-> & rem & cl & -> & Hne & Hrw & H41 & Hb & Hcl)]); cbn [arg_shape].
+        -- left. exists body, (bc :: ws2), cl. split; [reflexivity|]. split; [exact Hub|]. split; [constructor; assumption|].
+           split; [intros; congruence|exact Hcl].
+        -- right. left. exists body, (bc :: ws2), rem, cl. split; [reflexivity|]. split; [exact Hub|]. split; [exact Hbne|].
+           split; [constructor; assumption|]. split; [discriminate|]. repeat split; assumption.
+      * change (0 <? 0) with false in H. cbv iota in H. bind_inv H. apply Some_pair_inj in H. destruct H as [<- Hn].
+        assert (x = len (bc :: y)) by (rewrite len_cons; lia). subst x.
+        change (bc :: y ++ [0]) with ((bc :: y) ++ [0]) in E0.
+        destruct (badurl_whole _ E0) as (rem & cl & Hr & Hb & Hcl).
+        assert (H41 : bc <> 41) by (intros ->; discriminate Hbad).
+        destruct rem as [|c0 rem']; [cbn [app] in Hr; destruct Hcl as [-> | ->]; [injection Hr as -> _; congruence|discriminate Hr]|].
+        cbn [app] in Hr. injection Hr as <- ->. cbn [arg_shape]. left. exists body, bc, rem', cl. split; [reflexivity|]. split; [exact Hub|].
+        split; [split; [exact Hbad|split; [exact Ebw|exact H92]]|]. split; [|split; [exact Hb|exact Hcl]].
+        intros ->. cbn [app hd0] in Eq. exact Eq.
+Qed.
+
+Lemma identlike_url b ty : consume_identlike (b ++ [0]) = Some (ty, len b) -> ty = TURL \/ ty = TBadURL ->
+  (forall rest n, b = 45 :: 45 :: rest -> consume_ident_token (b ++ [0]) = Some n -> n <= 0) -> url_like ty b.
+Proof.
+  unfold consume_identlike. intros H Hty Hnc. destruct (consume_ident_token (b ++ [0])) as [x|] eqn:E; [|discriminate H]. cbn [option_bind] in H.
+  destruct (x =? 0) eqn:E0; [apply Some_pair_inj in H; destruct H as [<- _]; destruct Hty; discriminate|].
+  destruct (consume_ident_token_ok b) as (m & Hm & Hm0). rewrite E in Hm. apply Some_inj in Hm. subst m.
+  destruct (name_inv _ _ E) as (name & r & -> & Hl & Hname); [lia|].
+  rewrite <- app_assoc in H. rewrite <- Hl in H. rewrite skipz_len_app, firstz_len_app in H.
+  rewrite peekz_sent_0 in H. cbn [option_bind] in H.
+  destruct (negb (hd0 r =? 40)) eqn:E40; [apply Some_pair_inj in H; destruct H as [<- _]; destruct Hty; discriminate|].
+  apply negb_false_iff in E40.
+  destruct (negb (is_url_name name)) eqn:Eu; [apply Some_pair_inj in H; destruct H as [<- _]; destruct Hty; discriminate|].
+  apply negb_false_iff in Eu. destruct (hd0_is r 40) as (r1 & ->); [lia|lia|]. cbn [app tl] in H.
+  bind_inv H. destruct (scan_while_sent is_ws eq_refl _ _ E1) as (ws1 & a & -> & Hlw & Hws1 & Ha).
+  assert (Hsk : skipz x0 ((ws1 ++ a) ++ [0]) = a ++ [0]) by (rewrite <- app_assoc, <- Hlw; apply skipz_len_app). rewrite Hsk in H.
+  rewrite len_app, len_cons, len_app in H.
+  replace (len name + (1 + (len ws1 + len a))) with ((len name + 1 + x0) + len a) in H by lia.
+  apply url_arg_whole in H; [|exact Ha].
+  exists name, ws1, a. split; [reflexivity|]. split; [|split; [exact Hws1|exact H]].
+  split; [|exact Eu]. destruct Hname as [Hi|Hc].
+  - apply (ident_text_follow _ _ _ Hi). split; [reflexivity|split; discriminate].
+  - exfalso. inversion Hc; subst. cbn [app] in Hnc. specialize (Hnc _ _ eq_refl eq_refl). rewrite !len_cons in *. pose proof (len_nonneg rest). lia.
+Qed.
+
 Lemma identlike_case b x ty : consume_identlike (b ++ [0]) = Some x -> Some (or_delim x) = Some (ty, len b) ->
   (forall rest n, b = 45 :: 45 :: rest -> consume_ident_token (b ++ [0]) = Some n -> n <= 0) ->
-  b <> [] -> shaped ty = true -> tok_shape ty b.
+  b <> [] -> tok_shape ty b.
 Proof.
-  destruct x as [t n]. intros E H Hnc Hne Hs.
+  destruct x as [t n]. intros E H Hnc Hne.
   destruct (consume_identlike_ty _ _ _ E) as [(-> & _)|[->|[->|[->| ->]]]]; unfold or_delim in H; cbn [fst is_err] in H;
     apply Some_pair_inj in H; destruct H as [<- Hn].
   - subst n. destruct (identlike_name _ _ _ E (or_introl eq_refl)) as (name & r & Hb & Hname & Htok & Hpos & [(_ & Hn)|(Hx & _)]); [|discriminate Hx].
@@ -647,14 +860,14 @@ Proof.
     destruct (hd0_is r 40 H40) as (r' & ->); [lia|]. rewrite Hb, len_app in Hn. nil_of r' Hn.
     cbn [tok_shape]. exists name. split; [exact Hb|]. split; [|exact Hu]. destruct Hname as [Hi|Hc]; [exact Hi|]. exfalso.
     inversion Hc; subst. cbn [app] in Hnc. specialize (Hnc _ _ eq_refl Htok). lia.
-  - discriminate Hs.
-  - discriminate Hs.
+  - subst n. exact (identlike_url b TURL E (or_introl eq_refl) Hnc).
+  - subst n. exact (identlike_url b TBadURL E (or_intror eq_refl) Hnc).
 Qed.
 
 Lemma numeric_case b x ty : consume_numeric (b ++ [0]) = Some x -> Some (or_delim x) = Some (ty, len b) ->
-  b <> [] -> shaped ty = true -> tok_shape ty b.
+  b <> [] -> tok_shape ty b.
 Proof.
-  destruct x as [t n]. intros E H Hne Hs. unfold or_delim in H. cbn [fst] in H.
+  destruct x as [t n]. intros E H Hne. unfold or_delim in H. cbn [fst] in H.
   destruct (consume_numeric_ty _ _ _ E) as [->|[->|[->| ->]]]; cbn [is_err] in H; apply Some_pair_inj in H; destruct H as [<- Hn].
   - destruct b as [|c b']; [congruence|]. apply delim_shape, Hn.
   - subst n. apply numeric_shape; [exact E|auto].
@@ -662,10 +875,10 @@ Proof.
   - subst n. exact (dimension_inv b E).
 Qed.
 
-(* C07 (converse, for the shaped types): the scan of a token on its own bytes determines its shape *)
-Lemma scan_shape b ty : css_scan (b ++ [0]) = Some (ty, len b) -> b <> [] -> shaped ty = true -> tok_shape ty b.
+(* C07 (converse): the scan of a token on its own bytes determines its shape *)
+Lemma scan_shape b ty : css_scan (b ++ [0]) = Some (ty, len b) -> b <> [] -> tok_shape ty b.
 Proof.
-  intros H Hne Hs. destruct b as [|c b']; [congruence|]. cbn [app] in H.
+  intros H Hne. destruct b as [|c b']; [congruence|]. cbn [app] in H.
   unfold css_scan in H. rewrite peekz_0 in H. cbn [option_bind] in H.
   (* whitespace *)
   destruct (is_ws c) eqn:Ews.
@@ -694,7 +907,7 @@ Proof.
     - exact (string_inv c b' TBadString Hq E). }
   (* '.' and '+' *)
   destruct ((c =? 46) || (c =? 43)) eqn:Edp.
-  { bind_inv H. apply (numeric_case (c :: b') x ty E H Hne Hs). }
+  { bind_inv H. apply (numeric_case (c :: b') x ty E H Hne). }
   (* '-' *)
   destruct (c =? 45) eqn:E45.
   { bind_inv H. destruct (0 <? x) eqn:Ecdc.
@@ -707,12 +920,12 @@ Proof.
       subst x. nil_of b2 Hn. assert (c = 45) by lia. subst c. cbn. in_fixed.
     - bind_inv H. destruct (0 <? x0) eqn:Ecv; [res H Hn; subst x0; apply (custom_inv (c :: b')); [exact E0|cbn [hd0]; lia]|].
       bind_inv H. destruct (negb (is_err (fst x1))) eqn:Eil.
-      + apply (identlike_case (c :: b') x1 ty E1); [|  |exact Hne|exact Hs].
+      + apply (identlike_case (c :: b') x1 ty E1); [|  |exact Hne].
         * unfold or_delim. apply negb_true_iff in Eil. rewrite Eil. exact H.
         * intros rest n0 Hb Htok. injection Hb as _ Hb'. subst b'. cbn [app] in Htok.
           unfold consume_custom_variable in E0. cbn [app] in E0. rewrite peekz_1, peekz_0 in E0. cbn [option_bind Z.eqb Pos.eqb negb] in E0.
           rewrite E0 in Htok. apply Some_inj in Htok. lia.
-      + bind_inv H. apply (numeric_case (c :: b') x2 ty E2 H Hne Hs). }
+      + bind_inv H. apply (numeric_case (c :: b') x2 ty E2 H Hne). }
   (* '@' *)
   destruct (c =? 64) eqn:E64.
   { bind_inv H. unfold pos_tok in H. destruct (0 <? x); res H Hn; [|apply delim_shape, Hn].
@@ -757,14 +970,14 @@ Proof.
     - nil_of b4 Hn. assert (c = 60) by lia. subst c. cbn. in_fixed. }
   (* '\' *)
   destruct (c =? 92) eqn:E92.
-  { bind_inv H. apply (identlike_case (c :: b') x ty E H); [|exact Hne|exact Hs]. intros rest n0 Hb _. injection Hb as Hc _. lia. }
+  { bind_inv H. apply (identlike_case (c :: b') x ty E H); [|exact Hne]. intros rest n0 Hb _. injection Hb as Hc _. lia. }
   (* 'u' 'U' *)
   destruct ((c =? 117) || (c =? 85)) eqn:Eu.
   { bind_inv H. destruct (0 <? x) eqn:Eur.
     { res H Hn. destruct (urange_inv _ _ E) as (t & r & Hl & Hlt & Hsh); [lia|].
       change (c :: b' ++ [0]) with ((c :: b') ++ [0]) in Hl. apply app_len_inj in Hl; [|lia].
       cbn [tok_shape]. rewrite (proj1 Hl). exact Hsh. }
-    bind_inv H. apply (identlike_case (c :: b') x0 ty E0 H); [|exact Hne|exact Hs]. intros rest n0 Hb _. injection Hb as Hc _. lia. }
+    bind_inv H. apply (identlike_case (c :: b') x0 ty E0 H); [|exact Hne]. intros rest n0 Hb _. injection Hb as Hc _. lia. }
   (* '|' *)
   destruct (c =? 124) eqn:E124.
   { bind_inv H. unfold consume_match in E. rewrite peekz_1, peekz_sent_0, peekz_0 in E. cbn [option_bind] in E.
@@ -783,12 +996,12 @@ Proof.
   { rewrite eofb_cons_sent in H. res H Hn. apply delim_shape, Hn. }
   (* anything else: a number or a name *)
   bind_inv H. destruct (negb (is_err (fst x))) eqn:En.
-  - apply (numeric_case (c :: b') x ty E); [|exact Hne|exact Hs]. unfold or_delim. apply negb_true_iff in En. rewrite En. exact H.
-  - bind_inv H. apply (identlike_case (c :: b') x0 ty E1 H); [|exact Hne|exact Hs]. intros rest n0 Hb _. injection Hb as Hc _. lia.
+  - apply (numeric_case (c :: b') x ty E); [|exact Hne]. unfold or_delim. apply negb_true_iff in En. rewrite En. exact H.
+  - bind_inv H. apply (identlike_case (c :: b') x0 ty E1 H); [|exact Hne]. intros rest n0 Hb _. injection Hb as Hc _. lia.
 Qed.
 
-(* C07 (converse, for the shaped types): every token the lexer returns of one of these types has the shape of its type *)
-Lemma css_tokens_shaped_proof : forall d toks ty b, css_lex d = LexDone toks -> In (ty, b) toks -> shaped ty = true -> tok_shape ty b.
+(* C07 (converse): every token the lexer returns has the shape of its type *)
+Lemma css_tokens_shaped_proof : forall d toks ty b, css_lex d = LexDone toks -> In (ty, b) toks -> tok_shape ty b.
 Proof.
-  intros d toks ty b Hl Hin Hs. destruct (tok_scan d toks ty b Hl Hin) as (Hsc & _ & Hne). apply scan_shape; assumption.
+  intros d toks ty b Hl Hin. destruct (tok_scan d toks ty b Hl Hin) as (Hsc & _ & Hne). apply scan_shape; assumption.
 Qed.
